@@ -1559,15 +1559,19 @@ def stream_lazy(I, R, r, n_hist, maxops=12):
                     probe(ps)
                 elif x < 0.80:
                     ops.append(['save']); tags.add('lz-save')
-                    files.append(do_save())
+                    base_now = probe([(None, None)])[(None, None)]
+                    files.append((do_save(), base_now))
                 elif x < 0.90 and files:
-                    text = r.choice(files)
+                    text, base_then = r.choice(files)
                     ops.append(['reopen', text]); tags.add('lz-reopen-old')
                     do_reopen(text)
+                    got = probe([(None, None)])[(None, None)]
+                    if got != base_then:
+                        fails.append('after re-reading the file %r in the running bot the general value is %s, the file was saved with %s' % (file_value_lines(text), got, base_then))
                 else:
                     # save and re-read at once: nothing may change
                     before = probe(probes)
-                    text = do_save(); files.append(text); do_reopen(text)
+                    text = do_save(); files.append((text, before[(None, None)])); do_reopen(text)
                     after = probe(probes)
                     ops.append(['save_reopen']); tags.add('lz-save-reopen')
                     if after != before:
@@ -1690,6 +1694,25 @@ def replay(ctx, path):
             out = bot.feed(b, 'own!u@h', b.irc.nick, cmd)
             print(cmd, '->', [m.args[-1] for m in out])
             print('    ', {('%s/%s' % (n, c)): node.getSpecific(network=n, channel=c)() for n in (None, b.irc.network) for c in (None, '#x', '#y')})
+    elif op == 'lazy':
+        world = I.world; world.ircs[:] = [_StubIrc(n) for n in NETS]
+        I.reset_cache(); reg = I.registry
+        T = RealTree(I, inp['class'], inp['kind'], inp['default'])
+        def show():
+            return {('%s/%s' % p): T.get(*p) for p in PROBES if inp['kind'] == 'chan' or (inp['kind'] == 'net' and p[1] is None) or p == (None, None)}
+        for o in inp['ops']:
+            if o[0] == 'set': res = T.set_text(tuple(o[1]), o[2])
+            elif o[0] == 'setv': res = T.set_value(tuple(o[1]), o[2])
+            elif o[0] == 'reset_chan': res = T.reset_chan(o[1], o[2])
+            elif o[0] == 'reset_net': res = T.reset_net(o[1])
+            elif o[0] == 'get': res = [T.get(*p) for p in o[1]]
+            elif o[0] == 'save': reg.close(T.root, I.fn); res = file_value_lines(open(I.fn, encoding='utf-8').read())
+            elif o[0] == 'reopen':
+                open(I.fn, 'w', encoding='utf-8').write(o[1]); reg.open_registry(I.fn); res = 're-read %r' % file_value_lines(o[1])
+            else:
+                reg.close(T.root, I.fn); reg.open_registry(I.fn); res = 'saved and re-read'
+            print(o[:1], '->', res, '\n     raw set values:', T.dump())
+        print('finally:', show())
     elif op == 'sweep':
         b = live_bot(); conf = b.conf
         def find(nm):
